@@ -1,6 +1,7 @@
 package harness
 
 import (
+	"encoding/json"
 	"fmt"
 	"math/rand"
 	"regexp"
@@ -70,6 +71,30 @@ func genC08(seed int64, tier string) *Scenario {
 			exists[n] = true
 		}
 	}
+	// a second workspace root that comes and goes (didChangeWorkspaceFolders) during the history
+	ws2 := r.Intn(5) == 0
+	ws2In := false
+	ws2Files := []string{"/ws2/x.lua", "/ws2/sub/y.lua"}
+	folderEvent := func(add bool) Op {
+		ev := map[string]interface{}{"added": []interface{}{}, "removed": []interface{}{}}
+		k := "removed"
+		if add {
+			k = "added"
+		}
+		ev[k] = []interface{}{map[string]interface{}{"uri": "file:///ws2", "name": "ws2"}}
+		b, _ := json.Marshal(ev)
+		return Op{Kind: "folders", Params: b}
+	}
+	if ws2 {
+		for _, n := range ws2Files {
+			sc.Files = append(sc.Files, File{Path: n, Data: Bytes(c08Content(r, n))})
+		}
+		if r.Intn(2) == 0 {
+			sc.Folders = []string{Root, "/ws2"}
+			ws2In = true
+		}
+		sc.Knobs["ws2"] = true
+	}
 	open := map[string]bool{}
 	faulted := false
 	nops := 3 + r.Intn(14)
@@ -79,6 +104,17 @@ func genC08(seed int64, tier string) *Scenario {
 	for i := 0; i < nops; i++ {
 		n := names[r.Intn(len(names))]
 		autoDeliver := !anomalies || r.Intn(3) > 0
+		if ws2 && r.Intn(5) == 0 {
+			if r.Intn(2) == 0 {
+				ws2In = !ws2In
+				sc.Ops = append(sc.Ops, folderEvent(ws2In), Op{Kind: "check"})
+			} else if ws2In {
+				// the world changes a file of the second root while it is part of the workspace
+				f := ws2Files[r.Intn(len(ws2Files))]
+				sc.Ops = append(sc.Ops, Op{Kind: "fswrite", Path: f, Data: Bytes(c08Content(r, f))}, Op{Kind: "deliver"})
+			}
+			continue
+		}
 		switch k := r.Intn(22); {
 		case k < 4: // the world writes a file
 			if open[n] && r.Intn(3) > 0 {
@@ -237,6 +273,11 @@ func genC08(seed int64, tier string) *Scenario {
 		for _, n := range names {
 			sc.Ops = append(sc.Ops, Op{Kind: "touch", Path: n})
 		}
+		if ws2 && ws2In {
+			for _, n := range ws2Files {
+				sc.Ops = append(sc.Ops, Op{Kind: "touch", Path: n})
+			}
+		}
 	}
 	sc.Ops = append(sc.Ops, Op{Kind: "check", Arg: "final"})
 	return sc
@@ -285,7 +326,8 @@ type c08Checkpoint struct {
 	battery  []Op
 	view     map[string][]string
 	answers  []*Answer
-	dirty    string // dirty-point check: the single dirty document
+	folders  []string // the client's workspace folders at the checkpoint
+	dirty    string   // dirty-point check: the single dirty document
 	reverted map[string]bool
 }
 
@@ -348,7 +390,7 @@ func checkC08(t *testing.T, sc *Scenario) *Verdict {
 				}
 				e.probe("c08.dirty-checkpoint-after-world-write")
 			}
-			cp := &c08Checkpoint{at: i, final: op.Arg == "final", disk: DiskFiles(), open: e.OpenDocs(), reverted: map[string]bool{}}
+			cp := &c08Checkpoint{at: i, final: op.Arg == "final", disk: DiskFiles(), open: e.OpenDocs(), reverted: map[string]bool{}, folders: e.CurFolders()}
 			for p, r := range e.Reverted {
 				if r {
 					cp.reverted[URI(p)] = true
@@ -397,7 +439,7 @@ func checkC08(t *testing.T, sc *Scenario) *Verdict {
 			}
 			continue
 		}
-		fresh := &Scenario{Prop: "C08", Files: cp.disk, InitOpts: sc.InitOpts}
+		fresh := &Scenario{Prop: "C08", Files: cp.disk, InitOpts: sc.InitOpts, Folders: cp.folders}
 		for _, f := range cp.open {
 			fresh.Ops = append(fresh.Ops, Op{Kind: "open", Path: f.Path})
 		}
@@ -497,7 +539,7 @@ func c08DirtyCheck(t *testing.T, v *Verdict, cp *c08Checkpoint) string {
 		}
 	}
 	files = append(files, File{Path: cp.dirty, Data: buf})
-	fb := Run(t, &Scenario{Prop: "C08", Files: files}, Canonical(), Hooks{})
+	fb := Run(t, &Scenario{Prop: "C08", Files: files, Folders: cp.folders}, Canonical(), Hooks{})
 	v.absorb(fb)
 	uri := URI(cp.dirty)
 	want := onlyType1(fb.View[uri], true)
@@ -505,7 +547,7 @@ func c08DirtyCheck(t *testing.T, v *Verdict, cp *c08Checkpoint) string {
 	if len(want) == 0 {
 		tag = "saved-non-syntax"
 		if onDisk {
-			fd := Run(t, &Scenario{Prop: "C08", Files: cp.disk}, Canonical(), Hooks{})
+			fd := Run(t, &Scenario{Prop: "C08", Files: cp.disk, Folders: cp.folders}, Canonical(), Hooks{})
 			v.absorb(fd)
 			want = onlyType1(fd.View[uri], false)
 		}
